@@ -40,6 +40,10 @@ def diff_orient(ctx):
         def density_test(t, d):
             """median(diff(X.index)) OP median(diff(Y.index)) -> orientation of the denser
             operand under decision d"""
+            from ..flow import strip_not
+            t, pol_ = strip_not(t)
+            if not pol_:
+                d = not d
             if not (isinstance(t, ast.Compare) and len(t.ops) == 1):
                 return
             sides = []
